@@ -80,14 +80,23 @@ def run(thunk):
         return Outcome('err', exc=e)
 
 
+class _Out:
+    def __repr__(self):
+        return 'OUT'
+
+
+OUT = _Out()
+
+
 def concretize(v, lo, hi):
     """Finite-domain (D) variable: let the solver choose the value through a comparison chain and
     continue with the concrete int.  Used before values reach C code (tuple slicing, hashing,
     repr/eval, pickle, floats, bitwise ops), where the engine would realise them anyway but with
-    duplicated paths.  None passes through; a value outside [lo, hi] returns the symbolic value."""
+    duplicated paths.  None passes through; a value outside [lo, hi] returns OUT (note that
+    type(symbolic_int) is int under the engine, so callers must test `is OUT`)."""
     if v is None:
         return None
     for c in range(lo, hi + 1):
         if v == c:
             return c
-    return v
+    return OUT
